@@ -607,6 +607,38 @@ def rule_c19_output_roundtrip(prog: Program, col: Collector) -> None:
               construct="reader-namespace", necessity="metadata must round-trip")
 
 
+def rule_c19_readers(prog: Program, col: Collector) -> None:
+    """W6: the file-level readers return the entry stored under the requested name / every entry under its own name."""
+    col.rule("W6", "from_file returns from_json(entry stored under the requested name); get_outputs maps every name to its own entry", 2)
+    meths = prog.methods("run.save.Output")
+    ff = meths.get("from_file")
+    if ff is None:
+        raise AnchorMissing("Output.from_file not found")
+    ft = fterms(prog, ff)
+    pp = ff.positional_params()
+    path, name = ("param", pp[1]), ("param", pp[2])
+    rv = list(ft.of_kind("return"))
+    ok = False
+    if len(rv) == 1 and rv[0].value[0] == "call" and rv[0].value[1] == ("attr", ("param", pp[0]), "from_json") and len(rv[0].value[2]) == 1:
+        a = rv[0].value[2][0]
+        ok = a[0] == "index" and a[2] == name and is_call_to(a[1], "json.load", "json.loads") and any(has_subterm(x, path) for x in a[1][2])
+    col.check(ok, ff.where(), ff.short, "from_file(path, name) = from_json(json.load(path)[name])", construct="from_file",
+              necessity="what a run saved must be read back under its own name")
+    gref = prog.func("run.save.get_outputs")
+    gft = fterms(prog, gref)
+    dp = ("param", gref.positional_params()[0])
+    rv = list(gft.of_kind("return"))
+    ok = False
+    if len(rv) == 1 and rv[0].value[0] == "comp" and rv[0].value[1] == "dict":
+        c = rv[0].value
+        el, it, cd = c[3][0]
+        k, v = ("index", el, ("const", 0)), ("index", el, ("const", 1))
+        ok = not cd and it == ("call", ("attr", dp, "items"), (), ()) and c[2][0] == "tuple" and c[2][1][0] == k and \
+            c[2][1][1] == ("call", ("global", "incomplete_cooperative.run.save.Output.from_json"), (v,), ())
+    col.check(ok, gref.where(), gref.short, "get_outputs = {name: Output.from_json(entry) for name, entry in data.items()}", construct="get_outputs",
+              necessity="every earlier entry must read back under its own name")
+
+
 def _taint_sources(ft, root_terms: list[Term], var_term: Term, var_name: str | None) -> set[int]:
     """Indices i such that (index, root, i) flows into the value (term containment + out-parameter calls)."""
     out: set[int] = set()
